@@ -23,7 +23,7 @@ ASSUMPTIONS = [
     "each plasmid carries exactly one forward and one reverse site; module targets >= 2 nt, vector backbones >= 2 nt",
     "product compared up to rotation, case-insensitively (case is C18's subject)",
 ]
-FLOORS = {"c01_judged": 300, "c01_products_compared": 300, "c01_registry_judged": 10, "geometries_seen": 15}
+FLOORS = {"c01_kit_vector_assemblies_judged": 60, "c01_judged": 300, "c01_products_compared": 300, "c01_registry_judged": 10, "geometries_seen": 15}
 MUST_REACH = ["AbstractVector.assemble", "AssemblyManager._generate_assembly", "AbstractModule.target_sequence", "AbstractVector.target_sequence"]
 NEEDS_REGISTRIES = True
 BUDGET_S = {"quick": 900, "thorough": 7200}
@@ -38,6 +38,11 @@ def cases(tier, seed):
     names = gen.enzyme_names()
     out = _embedded.assembly_cases(seed, per * len(names), features=False, max_chain=6)
     out += _embedded.registry_assembly_cases(seed, per_vector=2 if tier == "quick" else 40)
+    # the hand-written vector structures of the kits (and the YTK product) with generated inserts
+    from . import C11
+    for name, _, _, _ in C11.triples():
+        for j in range(0, 20 if tier == "quick" else 1500, 10):
+            out.append({"kind": "kit-triple", "triple": name, "from": j, "count": 10, "seed": seed})
     return out
 
 
@@ -61,6 +66,23 @@ def worker_init(ctx, tier):
 
 
 def execute(mat, ctx):
+    if mat["kind"] == "kit-triple":
+        # C11's generator drives assemblies of kit vector classes; only the C01 judge installed on assemble() speaks here
+        from . import C11
+        from ..core import Ctx
+        t = next(x for x in C11.triples() if x[0] == mat["triple"])
+        for j in range(mat["from"], mat["from"] + mat["count"]):
+            rng = gen.rng_for(mat["seed"], PROP, mat["triple"], j)
+            before = ctx.counters["c01_judged"]
+            _mon.tag = {"kind": "kit-triple", "triple": mat["triple"], "strict": True}
+            try:
+                C11.one_triple(Ctx("C11-as-workload"), *t, rng=rng)
+            except RuntimeError:
+                pass
+            ctx.count("evaluations")
+            if ctx.counters["c01_judged"] > before:
+                ctx.count("c01_kit_vector_assemblies_judged")
+        return
     ctx.count("evaluations")
     before = ctx.counters["c01_judged"]
     if mat["kind"] == "assembly-mat":
